@@ -12,6 +12,7 @@ def handle (line : String) : String :=
   | "scan" :: f :: _ :: entries => scanLine (unhex f) entries
   | "recreateio" :: c :: rs :: ws :: _ :: entries => recreateIoLine (unhex c) rs ws entries
   | ["estimate", d] => estimateLine (unhex d)
+  | "inrange" :: rest => inRangeLine rest
   | "analyze" :: rest => analyzeLine rest
   | "analyzefull" :: rest => analyzeFullLine rest
   | "codec" :: ops => (match parseOps ops with | some o => codecLine o | none => "bad-request")
